@@ -198,7 +198,15 @@ pub fn object_heavy(base: &Config, salt: u64) -> Config {
     let mut rng = Rng::new(salt);
     let steps = 10 + rng.below(50) as usize;
     // recipes: operand set-ups followed by the typed opcode that consumes them
-    const RECIPES: [&[&str]; 29] = [
+    const RECIPES: [&[&str]; 35] = [
+        // an alias that travels through the memo: the memo holds a (shallow) copy of a tuple that
+        // contains the container, and GET brings it back above the container's MARK
+        &["EMPTY_LIST", "DUP", "TUPLE1", "MEMOIZE", "POP", "MARK", "BINGET", "APPENDS"],
+        &["EMPTY_LIST", "DUP", "TUPLE1", "BINPUT", "POP", "MARK", "BINGET", "APPENDS"],
+        &["EMPTY_DICT", "DUP", "TUPLE1", "BINPUT", "POP", "MARK", "NONE", "BINGET", "SETITEMS"],
+        &["EMPTY_DICT", "DUP", "TUPLE1", "PUT", "POP", "MARK", "GET", "NONE", "SETITEMS"],
+        &["EMPTY_SET", "DUP", "TUPLE1", "MEMOIZE", "POP", "MARK", "BINGET", "ADDITEMS"],
+        &["EMPTY_LIST", "DUP", "TUPLE1", "PUT", "POP", "GET", "APPEND"],
         // aliases made by DUP and stored back into the object itself, directly or through tuples
         &["GLOBAL", "EMPTY_TUPLE", "REDUCE", "DUP", "TUPLE1", "BUILD"],
         &["GLOBAL", "EMPTY_TUPLE", "REDUCE", "DUP", "NONE", "TUPLE2", "BUILD"],
